@@ -11,20 +11,28 @@ META = dict(
            "rows of the recorded system A x - b are identically the momentum balance and -g_dot(t_{n+1/2}, q_{n+1/2}, x_u); BackwardEuler.R_x and Rattle.R_x1 rows "
            "are identically g / gamma / c at (t_{n+1}, q_{n+1}) evaluated by an independent call; step_callback: unit quaternions, g and g_dot unchanged; "
            "ScipyIVP.la_g_la_gamma_la_c with the exact (Cramer) inverse: equations of motion and g_ddot = 0.  With the fsolve contract of C22 a converged "
-           "step bounds |g_i| by the tolerance.  Outside: Rattle stage 2 (inline in solve()), ScipyDAE drift (third-party integrator), DualStormerVerlet "
+           "step bounds |g_i| by the tolerance.  Rattle stage 2 (velocity stage): one real solve() step with stage 1 replaced by an arbitrary result and a MOVING anchor: rows of the recorded "
+           "system are the momentum balance and -g_dot(t_{n+1}, q_{n+1}, u_{n+1}).  ScipyIVP also with a motor and a compliance-form spring on a revolute joint "
+           "(concrete configuration, symbolic velocity / torque / stiffness).  Outside: ScipyDAE drift (third-party integrator), DualStormerVerlet "
            "(MINRES, increment-based stopping), accumulated error over many steps.",
     assumptions=["LU contract: the stubbed linear solve returns x with A x = b (the single trusted implication)", "quaternions nonzero, dt > 0"],
     trusted_base=["LU contract", "Cramer inverse for the ScipyIVP case (nu <= 3)"],
 )
 
 
-def build(h, which, seed):
+def build(h, which, seed, moving=False):
     import cardillo.constraints as C
     from cardillo import System
     from cardillo.discrete import Frame
     from cardillo.forces import Force
     rng = np.random.default_rng(seed + 91)
-    fr = Frame(r_OP=np.array([0.25, 0.0, 0.5]), name="fr")
+    r0 = np.array([0.25, 0.0, 0.5])
+    if moving:
+        # rheonomic anchor: prescribed translation with symbolic velocity / acceleration coefficients (closed-form derivatives, as a user supplies them)
+        v, a = h.vec("fr_v", 3), h.vec("fr_a", 3)
+        fr = Frame(r_OP=lambda t: r0 + v * t + a * (t * t), r_OP_t=lambda t: v + 2 * a * t, r_OP_tt=lambda t: 2 * a + 0 * t, name="fr")
+    else:
+        fr = Frame(r_OP=r0, name="fr")
     if which == "revolute":
         b = lib.make_rb(rng, "b")
         j = C.Revolute(fr, b, axis=1, r_OJ0=np.array([0.25, 0.0, 0.5]), A_IJ0=np.eye(3))
@@ -129,6 +137,47 @@ def residual_rows(h, solver="BackwardEuler", which="revolute", seed=0):
         h.eq("momentum rows (stage 1) = M (u_{n+1/2} - u_n) - dt/2 h - W_g P_g", R[sx[0]:sx[1]], M @ (un12 - un) - 0.5 * dt * sysm.h(tn, qn, un12) - W @ Pg)
 
 
+def rattle_stage2(h, which="distance", seed=0):
+    """one real Rattle.solve() step from an arbitrary state with stage 1 replaced by an arbitrary result (fsolve contract, C22): the velocity stage's
+    linear system is the momentum balance and the velocity-level constraint at (t_{n+1}, q_{n+1}), for a constraint to a MOVING anchor"""
+    from cardillo.solver import Rattle, SolverOptions
+    sysm, b, j = build(h, which, seed, moving=True)
+    dtc = 0.125
+    with h.capture():
+        sol = Rattle(sysm, dtc, dtc, options=SolverOptions(reuse_lu_decomposition=False, continue_with_unconverged=True, fixed_point_max_iter=1))
+    tn, qn, un = _state(h, sysm, b)
+    sol.tn, sol.qn, sol.un = tn, qn, un
+    x1 = h.vec("x1", len(sol.x1n))
+    if sysm.nq == 7:
+        h.assume(x1[3:7] @ x1[3:7] > 0, "stage-1 quaternion nonzero")
+    y1 = np.array(sol.y1n, dtype=float)
+    sol.I_N = np.zeros(sysm.nla_N, dtype=bool)       # (stage 1 leaves its active set here; no contacts)
+    sol._iterative_projection_method = lambda x0, y0, lu=None: (x1.copy(), y1.copy(), 0)
+    if h.sym:
+        from symx import shims
+        sysm._M0 = shims.SymMat(np.asarray(sysm._M0.toarray(), dtype=object))
+    with h.capture():
+        out = sol.solve()
+    nu, ng = sysm.nu, sysm.nla_g
+    sx = sol.split_x1
+    qn1, un12 = x1[:sx[0]], x1[sx[0]:sx[1]]
+    tn1 = tn + dtc
+    h.eq("stored time is t_n + dt", out.t[-1], tn1)
+    if h.sym:
+        rec = h.lu_log()[-1]
+        A, bb, x = rec["A"], rec["b"], rec["x"]
+        res = A @ x - bb
+        un1, Pg2 = -x[:nu], -x[nu:nu + ng]
+        h.eq("stored velocity is the velocity stage's solution", out.u[-1], un1)
+        h.eq("constraint rows of the velocity stage = -g_dot(t_{n+1}, q_{n+1}, u_{n+1})", res[nu:nu + ng], -np.atleast_1d(sysm.g_dot(tn1, qn1, un1)))
+        M = np.asarray(sysm.M(tn1, qn1).toarray())
+        W = np.asarray(sysm.W_g(tn1, qn1).toarray())
+        h.eq("momentum rows (stage 2) = -(M (u_{n+1} - u_{n+1/2}) - dt/2 h - W_g P_g2)", res[:nu],
+             -(M @ (un1 - un12) - 0.5 * dtc * sysm.h(tn1, qn1, un12) - W @ Pg2))
+    else:
+        h.eq("constraint rows of the velocity stage = -g_dot(t_{n+1}, q_{n+1}, u_{n+1})", np.atleast_1d(sysm.g_dot(tn1, qn1, out.u[-1])), np.zeros(ng), tol=1e-8)
+
+
 def callback(h, which="revolute", seed=0):
     sysm, b, j = build(h, which, seed)
     t, q, u = _state(h, sysm, b)
@@ -193,6 +242,8 @@ def cases(tier, seed):
             cs.append(Case(f"rows/{solver}/{which}", residual_rows, dict(solver=solver, which=which, seed=seed), timeout=T, hard=T * 8))
         if which != "distance":
             cs.append(Case(f"step_callback/{which}", callback, dict(which=which, seed=seed), timeout=T))
+    for which in (("distance",) if tier == "quick" else ("distance", "spherical")):
+        cs.append(Case(f"rattle_stage2/{which}", rattle_stage2, dict(which=which, seed=seed), timeout=T, hard=T * 8, max_paths=16))
     cs.append(Case("scipy_ivp/distance", scipy_ivp, dict(seed=seed), timeout=T))
     cs.append(Case("scipy_ivp/revolute+actuator+compliance", scipy_ivp, dict(seed=seed, forces=True), timeout=T, hard=T * 8))
     return cs
